@@ -493,7 +493,11 @@ func (h *c19Hammer) round(round int) {
 	// direct SignBlock callers (the RPC path PrivateNetAPI.BroadcastConfirm → consensus.SignBlock, no lock)
 	var sgn sync.WaitGroup
 	var signCalls, signBad int64
-	for si := 0; si < 2; si++ {
+	nDirect := 0
+	if round%2 == 1 { // even rounds: engine-internal concurrency only
+		nDirect = 2
+	}
+	for si := 0; si < nDirect; si++ {
 		si := si
 		sgn.Add(1)
 		go func() {
@@ -519,6 +523,36 @@ func (h *c19Hammer) round(round int) {
 	atomic.StoreInt32(&writersDone, 1)
 	rwg.Wait()
 	sgn.Wait()
+	if nDirect > 0 {
+		// pure API-level contention on the exported SignBlock (RPC callers + engine in production):
+		// four callers, alternating hashes, every returned signature verified
+		var stop int32
+		var swg sync.WaitGroup
+		for si := 0; si < 4; si++ {
+			si := si
+			swg.Add(1)
+			go func() {
+				defer swg.Done()
+				for i := 0; atomic.LoadInt32(&stop) == 0; i++ {
+					hash := c19HashOf(1 + (si+i)%3)
+					sig, err := consensus.SignBlock(hash)
+					atomic.AddInt64(&signCalls, 1)
+					if err != nil {
+						continue
+					}
+					id, err := types.BytesToSignData(sig).RecoverNodeID(hash)
+					if err != nil || !bytes.Equal(id, selfID) {
+						if atomic.AddInt64(&signBad, 1) == 1 {
+							h.fail(round, "c19/signblock-wrong-signature", fmt.Sprintf("consensus.SignBlock(%x…) called from four goroutines (alternating hashes) returned a signature that does not verify for the requested hash under the node key (recover err=%v)", hash[:4], err))
+						}
+					}
+				}
+			}()
+		}
+		time.Sleep(300 * time.Millisecond)
+		atomic.StoreInt32(&stop, 1)
+		swg.Wait()
+	}
 	time.Sleep(150 * time.Millisecond) // let batchConfirmStable / broadcastConfirm goroutines drain
 	close(stopFeed)
 	<-feedDone
